@@ -50,6 +50,9 @@ def classify(component, what, case):
         return case["quirk"]
     if case.get("witness") in NOT_MIRRORED:
         return case["witness"]
+    if case.get("where") == "s" and case.get("validate") == ["ok", "valid"] and "xpa:s" in (case.get("expr") or "") and \
+            any(b[:3] == ["ok", "bool", "0"] for b in case.get("evalb", [])):
+        return "F65"        # a when that reaches its own node by a child step is never evaluated
     err = (case.get("stderr", "") or "") + " " + (what or "")
     if case.get("crash"):
         if "outside the range of representable values of type 'long long'" in err:
@@ -524,7 +527,7 @@ def yang_dq(x):
 
 def mustwhen_law(cx, nvar):
     """(L) the must/when decision of lyd_validate_all is the boolean value of the same expression evaluated by lyd_eval_xpath3 at the same node."""
-    for vi in range(nvar):
+    for vi in range(-1, nvar):
         rng = cx.sub_rng("must%d" % vi)
         xml, vals = X.gen_tree(rng, X.SCHEMA1, density=0.9, maxinst=3)
         g = X.Gen(rng, X.SCHEMA1, vals, always_prefix=True)
@@ -532,6 +535,10 @@ def mustwhen_law(cx, nvar):
         sch = [n for n in X.SCHEMA1 if n["name"] == "c"]
         cur = sch if where == "c" else sch + [k for k in sch[0]["kids"] if k["name"] == ("l1" if where == "l1" else "s") and k["mod"] == X.A]
         e = g.expr("bool", rng.choice([1, 2, 2]), cur)
+        if vi == -1:
+            # witness of F65: the when of leaf s reaches s itself through a child step
+            where, xml = "s", '<c xmlns="urn:xpa"><s>bx</s><b>false</b></c>'
+            e = X.bop("eq", X.fn("count", X.relp(X.st(X.NODE, "parent"), X.st("s"))), X.num(7))
         if X.size(e) > 40: continue
         txt = X.render(e)
         if where == "c":
